@@ -34,4 +34,7 @@ Definition is_keyword (s : str) : bool := mem_str s t_keywords.
 Definition bq : ascii := "`"%char.
 Definition escape (s : str) : str := if is_keyword s then bq :: s ++ [bq] else s.
 
+(* _replace_keywords_in_path: every segment of a dotted path that is a keyword is back-quoted *)
+Definition escape_path (p : str) : str := join ["."%char] (map escape (split_ch "."%char p)).
+
 Definition name_annotation (name : str) : str := K"@PythonName(""" ++ name ++ K""")".
